@@ -236,7 +236,23 @@ class StmtMixin(CallMixin):
         self.assign(s.target, v)
 
     # ------------------------------------------------------------------ control flow
+    def only_logging(self, stmts) -> bool:
+        from .calls import DROPPED_CALLS
+        for st in stmts:
+            if isinstance(st, ast.Pass):
+                continue
+            if isinstance(st, ast.Expr) and isinstance(st.value, ast.Call) and ast.unparse(st.value.func) in DROPPED_CALLS:
+                continue
+            if isinstance(st, ast.Expr) and isinstance(st.value, ast.Constant):
+                continue
+            return False
+        return True
+
     def s_If(self, s):
+        if self.only_logging(s.body) and self.only_logging(s.orelse) and not any(isinstance(x, (ast.Await, ast.Call)) and not (isinstance(x, ast.Call) and isinstance(x.func, ast.Attribute) and x.func.attr in ('qsize', 'is_set', 'done')) for x in ast.walk(s.test)):
+            # X1: a condition that only guards log statements is dropped together with them
+            self.notes.append('if-statement guarding only log calls dropped (line %d)' % s.lineno)
+            return
         c = self.truth(self.eval(s.test))
         if self.branch(c, 'if'):
             self.exec_block(s.body)
@@ -320,24 +336,37 @@ class StmtMixin(CallMixin):
                 self.assume_type(nv)
                 self.st.env[nm] = nv
         fields, ghosts, suspends = self.writes_of(body_nodes)
+        star = None
+        pre_loop = self.st.snapshot()
         fields |= set(L.get('havoc', ()))
         ghosts |= set(L.get('havoc_ghost', ()))
         if suspends:
             I = self.interference()
             if I is not None:
                 if '*' in I.havoc:
-                    fields |= set(self.st.heap) - set(I.keep)
+                    fields |= {f for f in self.st.heap if not f.startswith('$')} - set(I.keep)
+                    star = I.keep
                 else:
                     fields |= set(I.havoc)
                 ghosts |= set(I.havoc_ghost)
         for f in sorted(fields):
             if f in self.spec.fields:
                 self.havoc_field(f)
+        if star is not None:
+            self.new_epoch(star)
         if fields:
             self.grow_alloc()
         for g in sorted(ghosts):
             self.havoc_ghost(g)
         self.rebase_frame([f for f in fields if f in self.spec.fields], ghosts)
+        if suspends:
+            # rely clauses are reflexive and transitive ("once X, X stays"): they relate the state at loop entry to the state at
+            # the head of any later iteration, however many suspension points lie in between
+            I = self.interference()
+            if I is not None:
+                env = dict(self.st.env)
+                for cl in I.rely:
+                    self.assume(self.spec_bool(cl.expr, env, entry=pre_loop))
 
     def check_inv(self, L: dict, kind: str, ordinal: int, assume_only=False):
         env = dict(self.st.env)
